@@ -245,7 +245,7 @@ class C12Monitor(explore.Monitor):
     return g.bundle(e)
 
   def after(self, st, e, bundle, group, exc):
-    if exc is not None:
+    if exc is not None or st.get("tainted"):
       return []
     fails = []
     for (s_id, t_id, gb) in summaries(e):
@@ -267,7 +267,9 @@ class C12Monitor(explore.Monitor):
     out = []
     for clause, d in fails:
       k = (clause, self.classify(clause, d, bundle, None))
-      if st.get("exploring") and k in _known_classes() and k in _REPORTED: continue
+      if st.get("exploring") and k in _known_classes() and k in _REPORTED:
+        st["tainted"] = True       # the stale state persists: nothing new can be learnt
+        continue
       _REPORTED.add(k)
       out.append((clause, d))
       break
